@@ -108,7 +108,7 @@ class KeyLog:
         for n in ("bernoulli", "categorical", "randint"):
             setattr(jax.random, n, mk(n))
         if self.unjit:
-            self.TS._sample_component_jit = self.TS._sample_component
+            self.TS._sample_component_jit = getattr(self.TS._sample_component_jit, "__wrapped__", self.TS._sample_component)
         return self
 
     def __exit__(self, *a):
@@ -373,6 +373,10 @@ def run(ctx: Ctx) -> int:
         cases.append((kind, cname, seed, hist))
     # one history under jax.disable_jit() with the ORIGINAL jitted forwarder in place
     cases.append(("measurement", "noisy-measure", rng.getrandbits(30), [{"op": "sample", "shots": 3, "batch_size": 2}, {"op": "sample", "shots": 1, "batch_size": 1}], "disable_jit"))
+
+    # one very large batch (more than 2^17 shots in a single batch: any internal blocking of a batch must still use fresh keys)
+    cases.append(("measurement", "three-channels", rng.getrandbits(30), [{"op": "sample", "shots": 140000, "batch_size": 140000}, {"op": "sample", "shots": 5, "batch_size": 5}]))
+    cases.append(("detector", "noisy-detect", rng.getrandbits(30), [{"op": "sample", "shots": 132000, "batch_size": None}]))
 
     logs = []
     for case in cases:
